@@ -169,6 +169,49 @@ static void handle(size_t nw, char **w) {
 		if (ok) { outs[on] = 0; printf("%s %04lx", outs, ent.draws); } else printf("ERR");
 		drop_entropy(); free(ctx); free(outs);
 	}
+	else if (!strcmp(w[0], "ctprint") && nw == 2) {
+		buf_t a = hex2buf(w[1]); FILE *fp = fopen("/dev/null", "w");
+		printf(sm2_ciphertext_print(fp, 0, 0, "ct", a.p, a.n) == 1 ? "OK" : "ERR");
+		fclose(fp); free(a.p);
+	}
+	else if (!strcmp(w[0], "equery") && nw == 2) {
+		/* size query: sm2_encrypt_finish with out == NULL */
+		size_t k, i, outlen = 0; int ok = 1; SM2_ENC_CTX *ctx = malloc(sizeof(*ctx));
+		memset(&key, 0, sizeof(key)); no_entropy();
+		k = split_chunks(w[1], ch, MAXC);
+		if (sm2_encrypt_init(ctx) != 1) ok = 0;
+		for (i = 0; ok && i < k; i++) if (sm2_encrypt_update(ctx, ch[i].p, ch[i].n) != 1) ok = 0;
+		if (ok && sm2_encrypt_finish(ctx, &key, NULL, &outlen) != 1) ok = 0;
+		if (ok) printf("%04zx", outlen); else printf("ERR");
+		free_chunks(ch, k); free(ctx);
+	}
+	else if (!strcmp(w[0], "dquery") && nw == 2) {
+		size_t k, i, outlen = 0; int ok = 1; SM2_DEC_CTX *ctx = malloc(sizeof(*ctx));
+		memset(&key, 0, sizeof(key)); no_entropy();
+		k = split_chunks(w[1], ch, MAXC);
+		if (sm2_decrypt_init(ctx) != 1) ok = 0;
+		for (i = 0; ok && i < k; i++) if (sm2_decrypt_update(ctx, ch[i].p, ch[i].n) != 1) ok = 0;
+		if (ok && sm2_decrypt_finish(ctx, &key, NULL, &outlen) != 1) ok = 0;
+		if (ok) printf("%04zx", outlen); else printf("ERR");
+		free_chunks(ch, k); free(ctx);
+	}
+	else if (!strcmp(w[0], "dctxr") && nw == 3) {
+		/* dctxr d rounds : one SM2_DEC_CTX over several ciphertexts, reset between them */
+		SM2_DEC_CTX *ctx = malloc(sizeof(*ctx)); char *save = NULL, *rd; int first = 1, ok = 1;
+		char *outs = malloc(1 << 16); size_t on = 0;
+		if (key_from_d(&key, w[1]) != 1) { printf("ERR key"); free(ctx); free(outs); return; }
+		no_entropy();
+		if (sm2_decrypt_init(ctx) != 1) ok = 0;
+		for (rd = strtok_r(w[2], ";", &save); ok && rd; rd = strtok_r(NULL, ";", &save)) {
+			size_t k = split_chunks(rd, ch, MAXC), i, outlen = 0, j; uint8_t *out = malloc(SM2_MAX_PLAINTEXT_SIZE);
+			for (i = 0; ok && i < k; i++) if (sm2_decrypt_update(ctx, ch[i].p, ch[i].n) != 1) ok = 0;
+			if (ok && sm2_decrypt_finish(ctx, &key, out, &outlen) != 1) ok = 0;
+			if (ok) { if (!first) outs[on++] = ','; if (!outlen) outs[on++] = '-'; for (j = 0; j < outlen; j++) on += sprintf(outs + on, "%02x", out[j]); first = 0; sm2_decrypt_reset(ctx); }
+			free(out); free_chunks(ch, k);
+		}
+		if (ok) { outs[on] = 0; printf("%s", outs); } else printf("ERR");
+		free(ctx); free(outs);
+	}
 	else printf("ERR unknown-op");
 }
 
